@@ -140,6 +140,9 @@ func run(raw json.RawMessage) (common.Case, error) {
 	c.Coq = common.App("CSeries", common.Bool(in.Lazy), common.Nat(in.Buf), pu.CoqStrList(in.WRL), common.Z(in.Limit),
 		common.Nat(int(in.Batch)), common.List(scripts), oFrames, pu.CoqStrList(ws))
 	obs := map[string]any{"frames": pu.Describe(res.Frames)}
+	if len(in.Sched) > 0 {
+		obs["receiver_schedule_realised"] = fmt.Sprint(res.Trace)
+	}
 	if res.Err != nil {
 		obs["err"] = "error"
 	}
@@ -221,6 +224,9 @@ func run(raw json.RawMessage) (common.Case, error) {
 		mode = "lazy"
 	}
 	c.Class = fmt.Sprintf("%s/stores=%d", mode, len(in.Stores))
+	if len(in.Sched) > 0 {
+		c.Class += "/scheduled"
+	}
 	// non-trivial: at least two stores, at least two series in the result, and some label set sent more than once
 	c.Nontrivial = len(in.Stores) >= 2 && nSeries >= 2 && dupSeen
 	return c, nil
